@@ -380,6 +380,11 @@ func extOnceDo(fr *frame, args []value) value {
 	if fr.i.ex != nil && fr.i.ex.StoreMon != nil {
 		fr.i.ex.StoreMon.syncDepth++
 	}
+	if fr.i.ex != nil && fr.i.ex.Guard != nil {
+		g := fr.i.ex.Guard
+		g.onceDepth++
+		defer func() { g.onceDepth-- }()
+	}
 	defer func() {
 		delete(fr.i.onceActive, once)
 		if fr.i.ex != nil && fr.i.ex.StoreMon != nil {
